@@ -142,6 +142,8 @@ def case_literal(case, res, cfg):
             o = 'MHGet %d%%nat %s %s %s %s %s' % (st['i'], form_lit(st['form']), coq_lit(bool(st['copy'])), coq_lit(bool(rec['raised'])),
                                                coq_lit(bool(rec.get('same', False))), coq_lit(bool(rec.get('shares', False))))
         elif op == 'set':
+            if not rec.get('stored_is_arg'):
+                probs.append('step %s: set_B did not store the caller\'s tensor object itself (Model/StoreMps.v set_B stores the reference)' % st)
             o = 'MHSet %d%%nat %d%%nat %s %s' % (st['i'], st['b'], form_lit(st['form']), natl(rec['perm']))
         elif op == 'meas':
             gets = ['(%d%%nat, %s, %s)' % (g[0], form_lit(g[1]), coq_lit(bool(g[2]))) for g in rec['gets'][:200]]
@@ -160,9 +162,16 @@ def case_literal(case, res, cfg):
 def run_stream(ctx, n_quick=120, n_thorough=600, mult=1):
     """generate, run in both configurations (half of the cases each), compare with the model"""
     rng = ctx.rng
-    cases = [gen_case(rng) for _ in range(ctx.pick(n_quick, n_thorough) * mult)]
-    half = len(cases) // 2
-    parts = [('py', cases[:half]), ('cy', cases[half:])]
+    if ctx.replay_in:
+        import json
+        doc = (json.load(open(ctx.replay_in)).get('input') or {})
+        if doc.get('stream') != 'mps-history':
+            return []
+        parts = [(doc.get('config', 'py'), [doc['case']])]
+    else:
+        cases = [gen_case(rng) for _ in range(ctx.pick(n_quick, n_thorough) * mult)]
+        half = len(cases) // 2
+        parts = [('py', cases[:half]), ('cy', cases[half:])]
     lits, src = [], []
     stat = {}
     for cfg, part in parts:
@@ -170,8 +179,8 @@ def run_stream(ctx, n_quick=120, n_thorough=600, mult=1):
         chunks = [part[k::nchunk] for k in range(nchunk)]
         outs = common.run_impl_parallel('c03_impl.py', [{'cases': [['mpshist', c] for c in ch]} for ch in chunks], config=cfg)
         for k, (r, err) in enumerate(outs):
-            if err:
-                ctx.fail('correspondence', 'mps-history runner failed (%s): %s' % (cfg, err[-600:]), None)
+            if err or r['info'].get('have_cython') != (cfg == 'cy'):
+                ctx.fail('correspondence', 'mps-history runner failed (%s): %s' % (cfg, (err or str(r['info']))[-600:]), None)
                 continue
             for j, x in enumerate(r['results']):
                 c = chunks[k][j]
